@@ -110,11 +110,11 @@ func init() {
 
 	checks["C16"] = eng.Check{
 		Hist: true,
-		Rule: "Overlay(base, Sparse): base = each of the 64 Bytes layouts over addresses 0..5 and 4 pre-filled (fragmented, symbolic) Sparse memories; every history of <=2 (quick) / <=3 (thorough) stores (addr 0..5, width 1..3 (+4 quick depth<=2), constant/symbolic/narrower values) through the real Overlay; after each history every Load/Missing for a in 0..7, w in 1..4 and Blocks() compared with the layered byte map (upper layer wins, else base), and the base's own full surface compared with its initial model. Non-trivial = history with >=2 stores.",
+		Rule: "Overlay(base, Sparse): base = each of the 64 Bytes layouts over addresses 0..5 and 4 pre-filled (fragmented, symbolic) Sparse memories; every history of <=2 (quick) / <=3 (thorough) stores (addr 0..5, width 1..3 (+4 quick depth<=2), constant/symbolic/narrower values and constants equal to the base layer's content at that place) through the real Overlay; after each history every Load/Missing for a in 0..7, w in 1..4 and Blocks() compared with the layered byte map (upper layer wins, else base), and the base's own full surface compared with its initial model. Non-trivial = history with >=2 stores.",
 		Assumptions: []string{"no address wrap", "values judged under 3 valuations"},
 		Run: func(r *eng.Run) {
-			alpha := memAlpha(seq(0, 5), seq(1, 3), []string{"const", "sym"})
-			alpha2 := memAlpha(seq(0, 5), seq(1, 4), []string{"const", "sym", "narrow"})
+			alpha := memAlpha(seq(0, 5), seq(1, 3), []string{"const", "sym", "basecopy"})
+			alpha2 := memAlpha(seq(0, 5), seq(1, 4), []string{"const", "sym", "narrow", "basecopy"})
 			depth := 2
 			if !r.Quick() {
 				depth = 3
@@ -135,10 +135,14 @@ func init() {
 				base{kind: "sparse", pre: []memOp{{1, 2, "const"}, {4, 2, "sym"}, {2, 1, "const"}}},
 			)
 			r.Note("bases=%d alphabet=%d/%d depth=%d", len(bases), len(alpha), len(alpha2), depth)
-			for _, b := range bases {
+			for bi, b := range bases {
 				b := b
 				memDo(r, memCase{Mem: "overlay", Base: b.kind, Blocks: b.blocks, Pre: b.pre, MaxA: 7, MaxW: 4})
-				histories(r, alpha2, 2, func(ops []memOp) {
+				a2 := alpha2
+				if r.Quick() && bi%6 != 3 && bi < 64 {
+					a2 = alpha // quick: the wide alphabet on every 6th layout and the sparse bases only
+				}
+				histories(r, a2, 2, func(ops []memOp) {
 					memDo(r, memCase{Mem: "overlay", Base: b.kind, Blocks: b.blocks, Pre: b.pre, Ops: append([]memOp{}, ops...), MaxA: 7, MaxW: 4})
 				})
 				if depth >= 3 {
